@@ -286,7 +286,8 @@ class DMRGEngine(IterativeSweeps):
         # energy and entropy before the iteration:
         if len(self.sweep_stats['E']) < 1:  # first iteration
             E_old = np.nan
-            S_old = np.mean(self.psi.entanglement_entropy())
+            # (`for_matrix_S`: we might resume from a checkpoint of a run with enabled mixer)
+            S_old = np.mean(self.psi.entanglement_entropy(for_matrix_S=True))
         else:
             E_old = self.sweep_stats['E'][-1]
             S_old = self.sweep_stats['S'][-1]
